@@ -16,3 +16,39 @@ snap = alias.snapshot(fns)
 snap[alias.FIELDS_KEY] = alias.field_snapshot(adts, fns)
 json.dump(snap, open(alias.ANCHORS, "w"), indent=0, sort_keys=True)
 print("%d reference functions written to %s" % (len(snap), alias.ANCHORS))
+
+# what each named local of a function with reviewed panic-ledger entries stood for on the reference tree: lets the ledger recognise a
+# site whose named temporary was written into the expression (`let n = chars.len(); s.split_at(n)` -> `s.split_at(chars.len())`)
+from lacecheck.facts import Program, expr_str, short, callee_of
+P = Program(fdir)
+led = json.load(open(os.path.join(ROOT, "tables", "ledger.json")))
+led = led if isinstance(led, list) else led.get("entries", led)
+wanted = {e["key"].split("|", 1)[0] for e in led}
+named = {}
+for n, f in sorted(P.fns.items()):
+    if short(n) not in wanted or f.bkind != "fn":
+        continue
+    tab = {}
+    for l in range(len(f.locals)):
+        nm = f.local_name(l)
+        if not nm or f.is_arg(l):
+            continue
+        sd = f.single_def(l)
+        if not sd:
+            continue
+        if sd[0] == "stmt":
+            e = f.rvalue_expr(sd[3]["r"], 8, stop={"named"})
+        elif sd[0] == "call":
+            e = ("call", callee_of(sd[3]) or "<indirect>", tuple(f.expr(a, 8, stop={"named"}) for a in sd[3]["args"]))
+        else:
+            continue
+        txt = expr_str(e, 120)
+        if nm in tab and tab[nm] != txt:
+            tab[nm] = None          # two locals of one name: ambiguous, not used
+        else:
+            tab[nm] = txt
+    tab = {k: v for k, v in tab.items() if v}
+    if tab:
+        named[short(n)] = tab
+json.dump(named, open(os.path.join(ROOT, "tables", "named_locals.json"), "w"), indent=0, sort_keys=True)
+print("named locals of %d functions written" % len(named))
